@@ -1,38 +1,49 @@
 /-
 C08 helper lemmas: functions whose result depends on the item values (index-of,
-distinct-values, effective boolean value, aggregates, string-join, comparisons).
+distinct-values, effective boolean value, string-join).
 -/
 import EPV.Lemmas.SeqFunsList
 namespace EPV.Seq
 open EPV.Seq.Spec
 
+/-! ### the numeric views of model and specification coincide -/
+
+theorem isDbl_eq (a : Atom) : a.isDbl = isDouble a := by cases a <;> rfl
+theorem toD_eq (a : Atom) : a.toD = toDouble a := by cases a <;> rfl
+theorem xv_eq (a : Atom) : a.xv = exact a := by cases a <;> rfl
+theorem atomize_eq (doc : List String) (a : Atom) : atomize doc a = atomized doc a := by cases a <;> rfl
+
+theorem numEqP_eq (a b : Atom) : numEqP a b = numEq a b := by
+  simp only [numEqP, numEq, isDbl_eq, toD_eq, xv_eq, D.eqv_eq]
+
+theorem numLtP_eq (a b : Atom) : numLtP a b = numLt a b := by
+  simp only [numLtP, numLt, isDbl_eq, toD_eq, xv_eq, D.lt_eq]
+
+theorem isNumeric_kind (a : Atom) : a.isNumeric = (kind a == .num) := by cases a <;> rfl
+
 /-! ### equality of items -/
 
-theorem eqv_ofInt (x y : Int) : D.eqv (D.ofInt x) (D.ofInt y) = decide (x = y) := by
-  simp [D.eqv, D.ofInt, pow2]
+@[simp] theorem atom_bool_beq (x y : Bool) : (Atom.bool x == Atom.bool y) = (x == y) := by
+  cases x <;> cases y <;> rfl
 
-theorem eqv_decide (a b : D) : D.eqv a b = decide (eqD a b) := by
-  rw [Bool.eq_iff_iff, decide_eq_true_iff]; exact D.eqv_iff a b
+theorem beq_symm' {α : Type} [BEq α] [LawfulBEq α] (a b : α) : (a == b) = (b == a) := by
+  by_cases h : a = b
+  · subst h; rfl
+  · have h1 : (a == b) = false := by simpa using h
+    have h2 : (b == a) = false := by simpa using (fun h' => h h'.symm)
+    rw [h1, h2]
 
-theorem lt_decide (a b : D) : D.lt a b = decide (ltD a b) := by
-  rw [Bool.eq_iff_iff, decide_eq_true_iff]; exact D.lt_iff a b
-
-theorem le_decide (a b : D) : D.le a b = decide (leD a b) := by
-  rw [Bool.eq_iff_iff, decide_eq_true_iff]; exact D.le_iff a b
-
-theorem pyEq_same_kind (x v : Atom) :
-    ((x.isBool == v.isBool) && pyEq x v) = (eqAtom? x v == some true) := by
+theorem keyEq_eq (x v : Atom) : keyEq (cmpKey x) (cmpKey v) = (eqAtom? x v == some true) := by
   cases x <;> cases v <;>
-    simp [pyEq, eqAtom?, Atom.isBool, Atom.pyNum?, kind, numVal, eqv_decide, D.ofInt] <;>
-    first | done | exact decide_eq_decide.mpr Iff.rfl | skip
-  case bool.bool a b => cases a <;> cases b <;> simp [eqD]
+    simp [keyEq, cmpKey, eqAtom?, kind, Atom.isBool, Atom.isNumeric, otherEq, stringOfKey, numEqP_eq]
 
 theorem indexOfLoop_eq (v : Atom) (xs : Seq) (pos : Nat) :
-    indexOfLoop v pos xs = ((xs.zipIdx pos).filter fun t => eqAtom? t.1 v == some true).map Prod.snd := by
+    indexOfLoop (cmpKey v) pos xs =
+      ((xs.zipIdx pos).filter fun t => eqAtom? t.1 v == some true).map Prod.snd := by
   induction xs generalizing pos with
   | nil => rfl
   | cons x xs ih =>
-    simp only [indexOfLoop, List.zipIdx_cons, List.filter_cons, pyEq_same_kind]
+    simp only [indexOfLoop, List.zipIdx_cons, List.filter_cons, keyEq_eq]
     split <;> simp_all
 
 theorem indexOf_eq (xs : Seq) (v : Atom) : indexOf xs v = Spec.indexOf xs v := by
@@ -43,15 +54,26 @@ theorem indexOf_eq (xs : Seq) (v : Atom) : indexOf xs v = Spec.indexOf xs v := b
 theorem ebv_eq (s : Seq) : ebv s = Spec.ebv s := by
   match s with
   | [] => rfl
+  | .node _ :: _ => simp [ebv, Spec.ebv]
   | [.int n] => rfl
+  | [.dec m k] => rfl
   | [.bool b] => rfl
   | [.str t] =>
     simp only [ebv, Spec.ebv]
     congr 1
     by_cases h : t = "" <;> simp [h]
+  | [.untyped t] =>
+    simp only [ebv, Spec.ebv]
+    congr 1
+    by_cases h : t = "" <;> simp [h]
   | [.dbl d] =>
-    cases d <;> simp [ebv, Spec.ebv, eqD] <;> first | done | exact decide_eq_false id
-  | _ :: _ :: _ => simp [ebv, Spec.ebv]
+    cases d <;> simp [ebv, Spec.ebv, eqD, D.isNaN, D.isZero, D.val, XV.eqv]
+  | .int _ :: _ :: _ => simp [ebv, Spec.ebv]
+  | .dec _ _ :: _ :: _ => simp [ebv, Spec.ebv]
+  | .dbl _ :: _ :: _ => simp [ebv, Spec.ebv]
+  | .str _ :: _ :: _ => simp [ebv, Spec.ebv]
+  | .bool _ :: _ :: _ => simp [ebv, Spec.ebv]
+  | .untyped _ :: _ :: _ => simp [ebv, Spec.ebv]
 
 /-! ### string-join -/
 
@@ -62,17 +84,18 @@ theorem pyJoin_eq (sep : String) (l : List String) : pyJoin sep l = String.inter
   | a :: b :: rest =>
     rw [pyJoin, String.intercalate_cons_cons, pyJoin_eq sep (b :: rest)]
 
-theorem stringValue_eq (a : Atom) : a.stringValue? = stringOf? a := by
+theorem stringValue_eq (doc : List String) (a : Atom) : stringValue? doc a = stringOf? doc a := by
   cases a with
   | bool b => cases b <;> rfl
   | _ => rfl
 
-theorem fnStringJoin_eq (s : Seq) (sep : Option Seq) : fnStringJoin s sep = Spec.fnStringJoin s sep := by
+theorem fnStringJoin_eq (doc : List String) (s : Seq) (sep : Option Seq) :
+    fnStringJoin doc s sep = Spec.fnStringJoin doc s sep := by
   unfold fnStringJoin Spec.fnStringJoin
-  have : s.mapM Atom.stringValue? = s.mapM stringOf? := by
-    congr 1; funext a; exact stringValue_eq a
+  have : s.mapM (stringValue? doc) = s.mapM (stringOf? doc) := by
+    congr 1; funext a; exact stringValue_eq doc a
   rw [this]
-  cases s.mapM stringOf? with
+  cases s.mapM (stringOf? doc) with
   | none => rfl
   | some strs =>
     simp only [pyJoin_eq]
@@ -80,240 +103,120 @@ theorem fnStringJoin_eq (s : Seq) (sep : Option Seq) : fnStringJoin s sep = Spec
 
 /-! ### distinct-values -/
 
-theorem cross_trans (m1 m2 m3 P1 P2 P3 : Int) (h2 : P2 ≠ 0) (a : m1 * P2 = m2 * P1) (b : m2 * P3 = m3 * P2) :
-    m1 * P3 = m3 * P1 := by
-  apply Int.eq_of_mul_eq_mul_right h2
-  have : m1 * P3 * P2 = (m1 * P2) * P3 := by grind
-  rw [this, a]
-  have : m3 * P1 * P2 = (m3 * P2) * P1 := by grind
-  rw [this, ← b]
-  grind
+/-- what the loop tests for the key `ky` of a new value against a stored key `kx` -/
+def keyTest (ky kx : Atom) : Bool :=
+  if ky.isNumeric then kx.isNumeric && numEqP ky kx
+  else (ky.isBool == kx.isBool) && otherEq ky kx
 
-theorem eqD_symm {a b : D} (h : eqD a b) : eqD b a := by
-  cases a <;> cases b <;> simp_all [eqD]
+/-- "has been produced already", as the loop decides it -/
+def seenM (nan : Bool) (results : Seq) (y : Atom) : Bool :=
+  if (cmpKey y).isNaN then nan else results.any fun kx => keyTest (cmpKey y) kx
 
-theorem eqD_trans {a b c : D} (h1 : eqD a b) (h2 : eqD b c) : eqD a c := by
-  cases a <;> cases b <;> cases c <;> simp_all [eqD]
-  rename_i m1 k1 m2 k2 m3 k3
-  exact cross_trans m1 m2 m3 _ _ _ (Int.ne_of_gt (pow2_pos k2)) h1 h2
+theorem isNaN_cmpKey (y : Atom) : (cmpKey y).isNaN = (y == .dbl .nan) := by
+  cases y with
+  | dbl d => cases d <;> simp [cmpKey, Atom.isNaN]
+  | _ => simp [cmpKey, Atom.isNaN]
+
+theorem XV.eqv_symm (a b : XV) : XV.eqv a b = XV.eqv b a := by
+  cases a <;> cases b <;> simp [XV.eqv, eq_comm]
+
+theorem numEq_symm (a b : Atom) : numEq a b = numEq b a := by
+  simp only [numEq, eqD, Bool.or_comm (isDouble a)]
+  split <;> exact XV.eqv_symm _ _
 
 theorem eqAtom_symm (a b : Atom) : (eqAtom? a b == some true) = (eqAtom? b a == some true) := by
-  cases a <;> cases b <;> simp [eqAtom?, kind, numVal]
-  all_goals first
-    | exact decide_eq_decide.mpr ⟨eqD_symm, eqD_symm⟩
-    | exact decide_eq_decide.mpr ⟨Eq.symm, Eq.symm⟩
-    | exact ⟨Eq.symm, Eq.symm⟩
-    | skip
+  cases a <;> cases b <;> simp [eqAtom?, kind, stringOfKey] <;>
+    first | done | exact numEq_symm _ _ | exact beq_symm' _ _ | (rw [numEq_symm])
 
 theorem sameValue_symm (a b : Atom) : sameValue a b = sameValue b a := by
   unfold sameValue
   rw [eqAtom_symm a b, Bool.and_comm]
 
-theorem eqAtom_trans {a b c : Atom} (h1 : (eqAtom? a b == some true) = true)
-    (h2 : (eqAtom? b c == some true) = true) : (eqAtom? a c == some true) = true := by
-  cases a <;> cases b <;> cases c <;> simp_all [eqAtom?, kind, numVal]
-  all_goals first
-    | exact eqD_trans h1 h2
-    | exact decide_eq_true (eqD_trans (of_decide_eq_true h1) (of_decide_eq_true h2))
+theorem XV.eqv_nan_left (b : XV) : XV.eqv .nan b = false := by cases b <;> rfl
+theorem XV.eqv_nan_right (a : XV) : XV.eqv a .nan = false := by cases a <;> rfl
 
 theorem eqAtom_nan_left (b : Atom) : (eqAtom? (.dbl .nan) b == some true) = false := by
-  cases b <;> simp [eqAtom?, kind, numVal, eqD] <;> first | done | exact decide_eq_false id
+  cases b <;> simp [eqAtom?, kind, numEq, isDouble, eqD, toDouble, D.val, XV.eqv_nan_left]
 
 theorem eqAtom_nan_right (a : Atom) : (eqAtom? a (.dbl .nan) == some true) = false := by
   rw [eqAtom_symm]; exact eqAtom_nan_left a
 
-theorem sameValue_trans {a b c : Atom} (h1 : sameValue a b = true) (h2 : sameValue b c = true) :
-    sameValue a c = true := by
-  unfold sameValue at *
-  by_cases hb : b = .dbl .nan
-  · subst hb
-    simp [eqAtom_nan_left, eqAtom_nan_right] at h1 h2
-    simp [h1, h2]
-  · have e1 : (eqAtom? a b == some true) = true := by
-      simp only [Bool.or_eq_true, Bool.and_eq_true, beq_iff_eq] at h1
-      rcases h1 with ⟨_, h⟩ | h
-      · exact absurd h hb
-      · simpa using h
-    have e2 : (eqAtom? b c == some true) = true := by
-      simp only [Bool.or_eq_true, Bool.and_eq_true, beq_iff_eq] at h2
-      rcases h2 with ⟨h, _⟩ | h
-      · exact absurd h hb
-      · simpa using h
-    simp [eqAtom_trans e1 e2]
-
-/-- "has been produced already": the NaN flag or an equal member of `results` -/
-def seenP (nan : Bool) (results : Seq) (y : Atom) : Bool :=
-  (nan && y == .dbl .nan) || results.any fun x => sameValue x y
-
-theorem dbl_test_eq (d : D) (hd : d.isNaN = false) (x : Atom) :
-    (x.isNumeric && pyEq (.dbl d) x) = sameValue x (.dbl d) := by
-  have hne : (Atom.dbl d == Atom.dbl .nan) = false := by
-    cases d <;> simp_all [D.isNaN]
+/-- the test of the loop against the key of a kept value is `sameValue` (for a kept value
+that is not NaN) -/
+theorem keyTest_eq (y k : Atom) (hy : (y == Atom.dbl .nan) = false) (hk : (k == Atom.dbl .nan) = false) :
+    keyTest (cmpKey y) (cmpKey k) = sameValue k y := by
   unfold sameValue
-  rw [hne, Bool.and_false, Bool.false_or]
-  cases x <;> simp [Atom.isNumeric, pyEq, Atom.pyNum?, eqAtom?, kind, numVal, eqv_decide, D.ofInt]
-  all_goals exact decide_eq_decide.mpr ⟨eqD_symm, eqD_symm⟩
+  rw [hk, Bool.false_and, Bool.false_or, eqAtom_symm]
+  cases y <;> cases k <;>
+    simp [keyTest, cmpKey, eqAtom?, kind, Atom.isBool, Atom.isNumeric, otherEq, stringOfKey, numEqP_eq]
 
-theorem other_test_eq (v : Atom) (hv : v.isDbl = false) (x : Atom) :
-    ((x.isBool == v.isBool) && pyEq x v) = sameValue x v := by
-  rw [pyEq_same_kind]
+theorem sameValue_nan_left (y : Atom) : sameValue (.dbl .nan) y = (y == .dbl .nan) := by
   unfold sameValue
-  have : (v == Atom.dbl .nan) = false := by cases v <;> simp_all [Atom.isDbl]
-  rw [this, Bool.and_false, Bool.false_or]
+  simp [eqAtom_nan_left]
 
-theorem seenP_append (nan : Bool) (results : Seq) (v y : Atom) :
-    seenP nan (results ++ [v]) y = (seenP nan results y || sameValue v y) := by
-  simp [seenP, List.any_append, Bool.or_assoc]
+theorem sameValue_nan_right (k : Atom) : sameValue k (.dbl .nan) = (k == .dbl .nan) := by
+  rw [sameValue_symm, sameValue_nan_left]
 
-theorem distinctLoop_eq (vs : Seq) : ∀ (nan : Bool) (results : Seq), (∀ x ∈ results, x ≠ Atom.dbl .nan) →
-    distinctLoop nan results vs =
-      (Spec.distinctValues vs).filter fun y => !seenP nan results y := by
+theorem distinctLoop_step (nan : Bool) (results : Seq) (v : Atom) (vs : Seq) :
+    distinctLoop nan results (v :: vs) =
+      if seenM nan results v then distinctLoop nan results vs
+      else v :: distinctLoop (nan || (cmpKey v).isNaN)
+        (if (cmpKey v).isNaN then results else results ++ [cmpKey v]) vs := by
+  simp only [distinctLoop, seenM, keyTest]
+  by_cases hnum : (cmpKey v).isNumeric
+  · simp only [hnum, if_true]
+    by_cases hnan : (cmpKey v).isNaN
+    · simp only [hnan, if_true, Bool.or_true]
+      cases nan <;> simp
+    · simp only [hnan, Bool.false_eq_true, if_false, Bool.or_false, List.all_eq_not_any_not, Bool.not_not]
+      cases results.any fun x => x.isNumeric && numEqP (cmpKey v) x <;> simp
+  · have hnan : (cmpKey v).isNaN = false := by
+      cases v with
+      | dbl d => simp [cmpKey, Atom.isNumeric] at hnum
+      | _ => simp [cmpKey, Atom.isNaN]
+    simp only [hnum, hnan, Bool.false_eq_true, if_false, Bool.or_false, List.all_eq_not_any_not, Bool.not_not]
+    cases results.any fun x => (cmpKey v).isBool == x.isBool && otherEq (cmpKey v) x <;> simp
+
+theorem distinctLoop_eq (vs : Seq) : ∀ (nan : Bool) (results kept : Seq),
+    (∀ y, seenM nan results y = kept.any fun k => sameValue k y) →
+    distinctLoop nan results vs = Spec.distinctFrom kept vs := by
   induction vs with
   | nil => intros; rfl
   | cons v vs ih =>
-    intro nan results hres
-    -- when `v` has been seen, everything equal to `v` has been seen
-    have absorb : seenP nan results v = true →
-        ((Spec.distinctValues vs).filter fun y => !sameValue v y).filter (fun y => !seenP nan results y)
-          = (Spec.distinctValues vs).filter fun y => !seenP nan results y := by
-      intro hseen
-      rw [List.filter_filter]
-      apply List.filter_congr
-      intro y _
-      by_cases hy : seenP nan results y = true
-      · simp [hy]
-      · have : sameValue v y = false := by
-          cases hvy : sameValue v y with
-          | false => rfl
-          | true =>
-            exfalso; apply hy
-            simp only [seenP, Bool.or_eq_true, Bool.and_eq_true, List.any_eq_true, beq_iff_eq] at hseen ⊢
-            rcases hseen with ⟨hn, hv⟩ | ⟨x, hx, hxv⟩
-            · left; refine ⟨hn, ?_⟩
-              subst hv
-              simpa [sameValue, eqAtom_nan_left] using hvy
-            · right; exact ⟨x, hx, sameValue_trans hxv hvy⟩
-        simp [this]
-    have fresh : seenP nan results v = false → ∀ (nan' : Bool) (results' : Seq),
-        (∀ y, seenP nan' results' y = (seenP nan results y || sameValue v y)) →
-        ((Spec.distinctValues vs).filter fun y => !seenP nan' results' y)
-          = ((Spec.distinctValues vs).filter fun y => !sameValue v y).filter (fun y => !seenP nan results y) := by
-      intro _ nan' results' h
-      rw [List.filter_filter]
-      apply List.filter_congr
-      intro y _
-      rw [h]; simp [Bool.and_comm]
-    simp only [Spec.distinctValues, List.filter_cons]
-    cases v with
-    | dbl d =>
-      cases hd : d.isNaN with
-      | true =>
-        have hdn : d = .nan := by cases d <;> simp_all [D.isNaN]
-        subst hdn
-        have hseenv : seenP nan results (.dbl .nan) = nan := by
-          simp only [seenP, beq_self_eq_true, Bool.and_true]
-          have : (results.any fun x => sameValue x (Atom.dbl D.nan)) = false := by
-            rw [List.any_eq_false]
-            intro x hx
-            have := hres x hx
-            simp [sameValue, eqAtom_nan_right, this]
-          simp [this]
-        simp only [distinctLoop, D.isNaN, if_true, hseenv]
-        cases nan with
-        | false =>
-          simp only [Bool.not_false, if_true, Bool.false_eq_true, if_false]
-          congr 1
-          rw [ih true results hres]
-          apply fresh hseenv
-          intro y
-          simp [seenP, sameValue, eqAtom_nan_left, Bool.or_comm]
-        | true =>
-          simp only [Bool.not_true, Bool.false_eq_true, if_false]
-          rw [ih true results hres, absorb hseenv]
-      | false =>
-        have hall : (results.all fun x => !(x.isNumeric && pyEq (.dbl d) x)) = !seenP nan results (.dbl d) := by
-          have hne : (Atom.dbl d == Atom.dbl .nan) = false := by cases d <;> simp_all [D.isNaN]
-          simp only [seenP, hne, Bool.and_false, Bool.false_or, List.all_eq_not_any_not, Bool.not_not]
-          congr 2; funext x; exact dbl_test_eq d hd x
-        simp only [distinctLoop, hd, Bool.false_eq_true, if_false, hall]
-        cases hs : seenP nan results (.dbl d) with
-        | true =>
-          simp only [Bool.not_true, Bool.false_eq_true, if_false]
-          rw [ih nan results hres, absorb hs]
-        | false =>
-          simp only [Bool.not_false, if_true]
-          congr 1
-          have hres' : ∀ x ∈ results ++ [Atom.dbl d], x ≠ Atom.dbl .nan := by
-            intro x hx
-            rcases List.mem_append.mp hx with h | h
-            · exact hres x h
-            · simp at h; subst h; intro h; cases d <;> simp_all [D.isNaN]
-          rw [ih nan _ hres']
-          exact fresh hs nan _ (seenP_append nan results _)
-    | int n =>
-      have hall : (results.all fun x => !((x.isBool == (Atom.int n).isBool) && pyEq x (.int n))) = !seenP nan results (.int n) := by
-        simp only [seenP, show (Atom.int n == Atom.dbl .nan) = false by simp, Bool.and_false, Bool.false_or,
-          List.all_eq_not_any_not, Bool.not_not]
-        congr 2; funext x; exact other_test_eq _ rfl x
-      simp only [distinctLoop, hall]
-      cases hs : seenP nan results (.int n) with
-      | true =>
-        simp only [Bool.not_true, Bool.false_eq_true, if_false]
-        rw [ih nan results hres, absorb hs]
-      | false =>
-        simp only [Bool.not_false, if_true]
-        congr 1
-        have hres' : ∀ x ∈ results ++ [Atom.int n], x ≠ Atom.dbl .nan := by
-          intro x hx
-          rcases List.mem_append.mp hx with h | h
-          · exact hres x h
-          · simp at h; subst h; simp
-        rw [ih nan _ hres']
-        exact fresh hs nan _ (seenP_append nan results _)
-    | str t =>
-      have hall : (results.all fun x => !((x.isBool == (Atom.str t).isBool) && pyEq x (.str t))) = !seenP nan results (.str t) := by
-        simp only [seenP, show (Atom.str t == Atom.dbl .nan) = false by simp, Bool.and_false, Bool.false_or,
-          List.all_eq_not_any_not, Bool.not_not]
-        congr 2; funext x; exact other_test_eq _ rfl x
-      simp only [distinctLoop, hall]
-      cases hs : seenP nan results (.str t) with
-      | true =>
-        simp only [Bool.not_true, Bool.false_eq_true, if_false]
-        rw [ih nan results hres, absorb hs]
-      | false =>
-        simp only [Bool.not_false, if_true]
-        congr 1
-        have hres' : ∀ x ∈ results ++ [Atom.str t], x ≠ Atom.dbl .nan := by
-          intro x hx
-          rcases List.mem_append.mp hx with h | h
-          · exact hres x h
-          · simp at h; subst h; simp
-        rw [ih nan _ hres']
-        exact fresh hs nan _ (seenP_append nan results _)
-    | bool b =>
-      have hall : (results.all fun x => !((x.isBool == (Atom.bool b).isBool) && pyEq x (.bool b))) = !seenP nan results (.bool b) := by
-        simp only [seenP, show (Atom.bool b == Atom.dbl .nan) = false by simp, Bool.and_false, Bool.false_or,
-          List.all_eq_not_any_not, Bool.not_not]
-        congr 2; funext x; exact other_test_eq _ rfl x
-      simp only [distinctLoop, hall]
-      cases hs : seenP nan results (.bool b) with
-      | true =>
-        simp only [Bool.not_true, Bool.false_eq_true, if_false]
-        rw [ih nan results hres, absorb hs]
-      | false =>
-        simp only [Bool.not_false, if_true]
-        congr 1
-        have hres' : ∀ x ∈ results ++ [Atom.bool b], x ≠ Atom.dbl .nan := by
-          intro x hx
-          rcases List.mem_append.mp hx with h | h
-          · exact hres x h
-          · simp at h; subst h; simp
-        rw [ih nan _ hres']
-        exact fresh hs nan _ (seenP_append nan results _)
+    intro nan results kept hinv
+    rw [distinctLoop_step, Spec.distinctFrom, hinv v]
+    split
+    · exact ih nan results kept hinv
+    · rename_i hseen
+      congr 1
+      apply ih
+      intro y
+      rw [List.any_append, ← hinv y]
+      simp only [List.any_cons, List.any_nil, Bool.or_false]
+      by_cases hv : (v == Atom.dbl .nan) = true
+      · -- v is NaN: only the flag changes
+        have hvn : (cmpKey v).isNaN = true := by rw [isNaN_cmpKey]; exact hv
+        have hv' : v = .dbl .nan := by simpa using hv
+        subst hv'
+        simp only [hvn, if_true, Bool.or_true, sameValue_nan_left, seenM, isNaN_cmpKey]
+        by_cases hy : (y == Atom.dbl .nan) = true
+        · simp [hy]
+        · simp [hy]
+      · have hvn : (cmpKey v).isNaN = false := by rw [isNaN_cmpKey]; simpa using hv
+        have hv0 : (v == Atom.dbl .nan) = false := by simpa using hv
+        simp only [hvn, Bool.false_eq_true, if_false, Bool.or_false, seenM, isNaN_cmpKey]
+        by_cases hy : (y == Atom.dbl .nan) = true
+        · have hy' : y = .dbl .nan := by simpa using hy
+          subst hy'
+          simp [sameValue_nan_right, hv0]
+        · have hy0 : (y == Atom.dbl .nan) = false := by simpa using hy
+          simp only [hy0, Bool.false_eq_true, if_false, List.any_append, List.any_cons, List.any_nil, Bool.or_false]
+          rw [keyTest_eq y v hy0 hv0]
 
 theorem distinctValues_eq (xs : Seq) : distinctValues xs = Spec.distinctValues xs := by
-  unfold distinctValues
-  rw [distinctLoop_eq xs false [] (by simp)]
-  simp [seenP]
+  unfold distinctValues Spec.distinctValues
+  apply distinctLoop_eq
+  intro y
+  simp [seenM]
 
 end EPV.Seq
